@@ -144,7 +144,7 @@ pub fn write_bytes<K: Kind>(shapes: &[K], with_shx: bool, fin: Finish) -> Result
 }
 
 pub fn build_all<K: Kind>(geoms: &[Geom], ctor: Ctor) -> Vec<K> {
-    geoms.iter().map(|g| K::build(g, ctor)).collect()
+    geoms.iter().map(|g| build_any::<K>(g, ctor)).collect()
 }
 
 pub fn views<K: Kind>(shapes: &[K]) -> Vec<Geom> {
